@@ -1,2 +1,493 @@
 import CvProps.RealInst
-/-! Helper lemmas for C14 (filled by the proofs). -/
+/-! Helper lemmas for C14: lists of a fixed length as functions, the invariant of the shared-ABF event machine
+(common grid, pending and local grids per walker), commuting samples, mirror reads. -/
+open Cv Cv.Shared
+
+namespace Cv.C14L
+
+/-! ## lists of a fixed length seen as functions -/
+
+def gv {X : Type} [Zero X] (l : List X) : Nat → X := fun i => l.getD i 0
+
+theorem gv_ext {X : Type} [Zero X] {a b : List X} (hl : a.length = b.length) (h : gv a = gv b) : a = b := by
+  apply List.ext_getElem hl
+  intro i h1 h2
+  have := congrFun h i
+  simpa [gv, List.getD_eq_getElem?_getD, h1, h2] using this
+
+theorem gv_replicate {X : Type} [Zero X] (n : Nat) : gv (List.replicate n (0 : X)) = 0 := by
+  funext i
+  simp [gv, List.getD_eq_getElem?_getD, List.getElem?_replicate]
+  split <;> rfl
+
+theorem gv_add {X : Type} [AddCommGroup X] {a b : List X} (hl : a.length = b.length) :
+    gv (List.zipWith (· + ·) a b) = gv a + gv b := by
+  funext i
+  simp only [gv, List.getD_eq_getElem?_getD, Pi.add_apply, List.getElem?_zipWith]
+  by_cases hi : i < a.length
+  · have hi' : i < b.length := hl ▸ hi
+    simp [List.getElem?_eq_getElem hi, List.getElem?_eq_getElem hi']
+  · have hi' : ¬ i < b.length := hl ▸ hi
+    simp [List.getElem?_eq_none (Nat.le_of_not_lt hi), List.getElem?_eq_none (Nat.le_of_not_lt hi')]
+
+theorem gv_sub {X : Type} [AddCommGroup X] {a b : List X} (hl : a.length = b.length) :
+    gv (List.zipWith (· - ·) a b) = gv a - gv b := by
+  funext i
+  simp only [gv, List.getD_eq_getElem?_getD, Pi.sub_apply, List.getElem?_zipWith]
+  by_cases hi : i < a.length
+  · have hi' : i < b.length := hl ▸ hi
+    simp [List.getElem?_eq_getElem hi, List.getElem?_eq_getElem hi']
+  · have hi' : ¬ i < b.length := hl ▸ hi
+    simp [List.getElem?_eq_none (Nat.le_of_not_lt hi), List.getElem?_eq_none (Nat.le_of_not_lt hi')]
+
+theorem gv_modify {X : Type} [AddCommGroup X] {a : List X} {b : Nat} (hb : b < a.length) (d : X) :
+    gv (a.modify b (· + d)) = gv a + Pi.single b d := by
+  funext i
+  simp only [gv, List.getD_eq_getElem?_getD, Pi.add_apply, List.getElem?_modify]
+  by_cases hi : b = i
+  · subst hi
+    simp [List.getElem?_eq_getElem hb]
+  · simp [hi]
+
+
+/-! ## grids: (counts, gradients) as a pair of functions -/
+
+abbrev G := (Nat → Int) × (Nat → ℝ)
+
+/-- the contribution of one sample -/
+noncomputable def sg (bf : Nat × ℝ) : G := (Pi.single bf.1 1, Pi.single bf.1 (-bf.2))
+
+/-- the sum of the contributions of a list of samples -/
+noncomputable def GS (l : List (Nat × ℝ)) : G := (l.map sg).sum
+
+noncomputable def view (s : List Int) (g : List ℝ) : G := (gv s, gv g)
+
+theorem view_ext {s s' : List Int} {g g' : List ℝ} (hs : s.length = s'.length) (hg : g.length = g'.length)
+    (h : view s g = view s' g') : (s, g) = (s', g') := by
+  have h1 := congrArg Prod.fst h
+  have h2 := congrArg Prod.snd h
+  simp only [view] at h1 h2
+  rw [gv_ext hs h1, gv_ext hg h2]
+
+theorem view_zero (nb : Nat) : view (List.replicate nb 0) (List.replicate nb 0.0) = 0 := by
+  have h0 : (0.0 : ℝ) = 0 := by norm_num
+  rw [h0]
+  simp only [view, gv_replicate]
+  rfl
+
+theorem view_sample {s : List Int} {g : List ℝ} {b : Nat} (hs : b < s.length) (hg : b < g.length) (f : ℝ) :
+    view (s.modify b (· + 1)) (g.modify b (· - f)) = view s g + sg (b, f) := by
+  have : (fun x : ℝ => x - f) = (· + (-f)) := by funext x; ring
+  simp only [view, sg]
+  rw [this, gv_modify hs, gv_modify hg]
+  rfl
+
+theorem view_vadd {s s' : List Int} {g g' : List ℝ} (hs : s.length = s'.length) (hg : g.length = g'.length) :
+    view (vaddI s s') (Shared.vadd g g') = view s g + view s' g' := by
+  simp only [view, vaddI, Shared.vadd]
+  rw [gv_add hs]
+  have := gv_add hg
+  rw [this]
+  rfl
+
+theorem view_vsub {s s' : List Int} {g g' : List ℝ} (hs : s.length = s'.length) (hg : g.length = g'.length) :
+    view (vsubI s s') (Shared.vsub g g') = view s g - view s' g' := by
+  simp only [view, vsubI, Shared.vsub]
+  rw [gv_sub hs]
+  have := gv_sub hg
+  rw [this]
+  rfl
+
+theorem GS_nil : GS [] = 0 := rfl
+theorem GS_append (a b : List (Nat × ℝ)) : GS (a ++ b) = GS a + GS b := by simp [GS]
+theorem GS_cons (x : Nat × ℝ) (a : List (Nat × ℝ)) : GS (x :: a) = sg x + GS a := by simp [GS]
+theorem GS_perm {a b : List (Nat × ℝ)} (h : a.Perm b) : GS a = GS b := (h.map sg).sum_eq
+
+theorem tally_foldl (nb : Nat) (l : List (Nat × ℝ)) (hl : ∀ bf ∈ l, bf.1 < nb) (s : List Int) (g : List ℝ)
+    (hs : s.length = nb) (hg : g.length = nb) :
+    let r := l.foldl (fun (t : List Int × List ℝ) bf => (t.1.modify bf.1 (· + 1), t.2.modify bf.1 (· - bf.2))) (s, g)
+    r.1.length = nb ∧ r.2.length = nb ∧ view r.1 r.2 = view s g + GS l := by
+  induction l generalizing s g with
+  | nil => simp [GS_nil, hs, hg]
+  | cons x l ih =>
+    have hx : x.1 < nb := hl x (by simp)
+    have := ih (fun bf h => hl bf (by simp [h])) (s.modify x.1 (· + 1)) (g.modify x.1 (· - x.2))
+      (by simp [hs]) (by simp [hg])
+    simp only [List.foldl_cons]
+    refine ⟨this.1, this.2.1, ?_⟩
+    rw [this.2.2, view_sample (hs ▸ hx) (hg ▸ hx), GS_cons, add_assoc]
+
+theorem tally_spec (nb : Nat) (l : List (Nat × ℝ)) (hl : ∀ bf ∈ l, bf.1 < nb) :
+    (tally nb l).1.length = nb ∧ (tally nb l).2.length = nb ∧ view (tally nb l).1 (tally nb l).2 = GS l := by
+  have := tally_foldl nb l hl (List.replicate nb 0) (List.replicate nb 0.0) (by simp) (by simp)
+  rw [view_zero, zero_add] at this
+  exact this
+
+
+/-! ## walkers -/
+
+structure WF (nb : Nat) (w : Walker ℝ) : Prop where
+  h1 : w.samples.length = nb
+  h2 : w.grad.length = nb
+  h3 : w.lastS.length = nb
+  h4 : w.lastG.length = nb
+  h5 : w.locS.length = nb
+  h6 : w.locG.length = nb
+
+noncomputable def cur (w : Walker ℝ) : G := view w.samples w.grad
+noncomputable def lst (w : Walker ℝ) : G := view w.lastS w.lastG
+noncomputable def loc (w : Walker ℝ) : G := view w.locS w.locG
+
+/-- every walker's snapshot is the common grid `C`, its grids in use are `C` plus its pending samples `P k`, its local
+    grids are `L k` -/
+structure ShInv (n nb : Nat) (ws : List (Walker ℝ)) (C : G) (P L : Nat → G) : Prop where
+  len : ws.length = n
+  wf : ∀ (k : Nat) (w : Walker ℝ), ws[k]? = some w → WF nb w
+  hcur : ∀ (k : Nat) (w : Walker ℝ), ws[k]? = some w → cur w = C + P k
+  hlst : ∀ (k : Nat) (w : Walker ℝ), ws[k]? = some w → lst w = C
+  hloc : ∀ (k : Nat) (w : Walker ℝ), ws[k]? = some w → loc w = L k
+
+theorem inv_init (n nb : Nat) : ShInv n nb (initAll n nb) 0 0 0 := by
+  have key : ∀ (k : Nat) (w : Walker ℝ), (initAll n nb : List (Walker ℝ))[k]? = some w → w = Walker.init nb := by
+    intro k w h
+    simp only [initAll, List.getElem?_replicate] at h
+    split at h
+    · exact (Option.some.inj h).symm
+    · cases h
+  refine ⟨by simp [initAll], ?_, ?_, ?_, ?_⟩
+  · intro k w h; rw [key k w h]; constructor <;> simp [Walker.init]
+  · intro k w h; rw [key k w h]; simp [cur, Walker.init, view_zero]
+  · intro k w h; rw [key k w h]; simp [lst, Walker.init, view_zero]
+  · intro k w h; rw [key k w h]; simp [loc, Walker.init, view_zero]
+
+theorem inv_sample {n nb : Nat} {ws : List (Walker ℝ)} {C : G} {P L : Nat → G} (h : ShInv n nb ws C P L)
+    (v b : Nat) (f : ℝ) (hb : b < nb) :
+    ShInv n nb (apply ws (.sample v b f)) C (Function.update P v (P v + sg (b, f))) L := by
+  have key : ∀ (k : Nat) (w' : Walker ℝ), (apply ws (.sample v b f))[k]? = some w' →
+      (k ≠ v ∧ ws[k]? = some w') ∨ (k = v ∧ ∃ w, ws[k]? = some w ∧ w' = w.sample b f) := by
+    intro k w' hk
+    simp only [apply, List.getElem?_modify] at hk
+    cases hw : ws[k]? with
+    | none => rw [hw] at hk; cases hk
+    | some w =>
+      rw [hw] at hk
+      have hk' := Option.some.inj hk
+      dsimp only at hk'
+      by_cases hv : v = k
+      · right
+        rw [if_pos hv] at hk'
+        exact ⟨hv.symm, w, rfl, hk'.symm⟩
+      · left
+        rw [if_neg hv] at hk'
+        exact ⟨fun h => hv h.symm, by rw [hk']⟩
+  refine ⟨by simp [apply, h.len], ?_, ?_, ?_, ?_⟩
+  · intro k w' hk
+    rcases key k w' hk with ⟨_, hk'⟩ | ⟨_, w, hw, rfl⟩
+    · exact h.wf k w' hk'
+    · have := h.wf k w hw
+      constructor <;> simp [Walker.sample, this.h1, this.h2, this.h3, this.h4, this.h5, this.h6]
+  · intro k w' hk
+    rcases key k w' hk with ⟨hne, hk'⟩ | ⟨rfl, w, hw, rfl⟩
+    · rw [Function.update_of_ne hne]; exact h.hcur k w' hk'
+    · have wf := h.wf k w hw
+      rw [Function.update_self, ← add_assoc, ← h.hcur k w hw]
+      simp only [cur, Walker.sample]
+      exact view_sample (wf.h1 ▸ hb) (wf.h2 ▸ hb) f
+  · intro k w' hk
+    rcases key k w' hk with ⟨_, hk'⟩ | ⟨_, w, hw, rfl⟩
+    · exact h.hlst k w' hk'
+    · exact h.hlst k w hw
+  · intro k w' hk
+    rcases key k w' hk with ⟨_, hk'⟩ | ⟨_, w, hw, rfl⟩
+    · exact h.hloc k w' hk'
+    · exact h.hloc k w hw
+
+theorem list_sum_eq_range {W M : Type} [AddCommMonoid M] (l : List W) (f : W → M) (g : ℕ → M)
+    (h : ∀ i w, l[i]? = some w → f w = g i) : (l.map f).sum = ∑ i ∈ Finset.range l.length, g i := by
+  induction l generalizing g with
+  | nil => simp
+  | cons x l ih =>
+    rw [List.map_cons, List.sum_cons, List.length_cons, Finset.sum_range_succ', add_comm]
+    rw [ih (fun i => g (i + 1)) (fun i w hw => h (i + 1) w (by simpa using hw))]
+    rw [h 0 x (by simp)]
+
+theorem tot_spec (nb : Nat) (rest : List (Walker ℝ)) (hwf : ∀ w ∈ rest, WF nb w) (s : List Int) (g : List ℝ)
+    (hs : s.length = nb) (hg : g.length = nb) :
+    (rest.foldl (fun t w => vaddI t w.deltaS) s).length = nb ∧
+    (rest.foldl (fun t w => Shared.vadd t w.deltaG) g).length = nb ∧
+    view (rest.foldl (fun t w => vaddI t w.deltaS) s) (rest.foldl (fun t w => Shared.vadd t w.deltaG) g)
+      = view s g + (rest.map (fun w => cur w - lst w)).sum := by
+  induction rest generalizing s g with
+  | nil => simp [hs, hg]
+  | cons w r ih =>
+    have wf := hwf w (by simp)
+    have hdS : w.deltaS.length = nb := by simp [Walker.deltaS, vsubI, wf.h1, wf.h3]
+    have hdG : w.deltaG.length = nb := by simp [Walker.deltaG, Shared.vsub, wf.h2, wf.h4]
+    have := ih (fun w' h => hwf w' (by simp [h])) (vaddI s w.deltaS) (Shared.vadd g w.deltaG)
+      (by simp [vaddI, hs, hdS]) (by simp [Shared.vadd, hg, hdG])
+    simp only [List.foldl_cons]
+    refine ⟨this.1, this.2.1, ?_⟩
+    rw [this.2.2, view_vadd (hs.trans hdS.symm) (hg.trans hdG.symm), List.map_cons, List.sum_cons, add_assoc]
+    congr 2
+    simp only [Walker.deltaS, Walker.deltaG, cur, lst]
+    exact view_vsub (wf.h1.trans wf.h3.symm) (wf.h2.trans wf.h4.symm)
+
+theorem inv_exchange {n nb : Nat} {ws : List (Walker ℝ)} {C : G} {P L : Nat → G} (h : ShInv n nb ws C P L) :
+    ShInv n nb (exchange ws) (C + ∑ k ∈ Finset.range n, P k) 0 (fun k => L k + P k) := by
+  cases ws with
+  | nil =>
+    have hn : n = 0 := by simpa using h.len.symm
+    refine ⟨by simp [exchange, hn], ?_, ?_, ?_, ?_⟩ <;> intro k w hk <;> simp [exchange] at hk
+  | cons w0 rest =>
+    have hw0 := h.wf 0 w0 (by simp)
+    have tot := tot_spec nb rest (fun w hw => by
+      obtain ⟨i, hi⟩ := List.mem_iff_getElem?.1 hw
+      exact h.wf (i + 1) w (by simpa using hi)) w0.samples w0.grad hw0.h1 hw0.h2
+    have hsum : (rest.map (fun w => cur w - lst w)).sum = ∑ i ∈ Finset.range rest.length, P (i + 1) := by
+      apply list_sum_eq_range
+      intro i w hw
+      have hw' : (w0 :: rest)[i + 1]? = some w := by simpa using hw
+      rw [h.hcur _ _ hw', h.hlst _ _ hw']; abel
+    have htot : view (rest.foldl (fun t w => vaddI t w.deltaS) w0.samples)
+        (rest.foldl (fun t w => Shared.vadd t w.deltaG) w0.grad) = C + ∑ k ∈ Finset.range n, P k := by
+      rw [tot.2.2, hsum, ← h.len, List.length_cons, Finset.sum_range_succ']
+      have : view w0.samples w0.grad = C + P 0 := h.hcur 0 w0 (by simp)
+      rw [this]; abel
+    have key : ∀ (k : Nat) (w' : Walker ℝ), (exchange (w0 :: rest))[k]? = some w' → ∃ w, (w0 :: rest)[k]? = some w ∧
+        w' = Walker.mk (rest.foldl (fun t w => vaddI t w.deltaS) w0.samples)
+               (rest.foldl (fun t w => Shared.vadd t w.deltaG) w0.grad)
+               (rest.foldl (fun t w => vaddI t w.deltaS) w0.samples)
+               (rest.foldl (fun t w => Shared.vadd t w.deltaG) w0.grad)
+               (vaddI w.locS w.deltaS) (Shared.vadd w.locG w.deltaG) := by
+      intro k w' hk
+      simp only [exchange, List.getElem?_map] at hk
+      cases hw : (w0 :: rest)[k]? with
+      | none => rw [hw] at hk; cases hk
+      | some w => rw [hw] at hk; exact ⟨w, rfl, (Option.some.inj hk).symm⟩
+    refine ⟨by simp [exchange, ← h.len], ?_, ?_, ?_, ?_⟩
+    · intro k w' hk
+      obtain ⟨w, hw, rfl⟩ := key k w' hk
+      have wf := h.wf k w hw
+      exact ⟨tot.1, tot.2.1, tot.1, tot.2.1,
+        by simp [vaddI, Walker.deltaS, vsubI, wf.h1, wf.h3, wf.h5],
+        by simp [Shared.vadd, Walker.deltaG, Shared.vsub, wf.h2, wf.h4, wf.h6]⟩
+    · intro k w' hk
+      obtain ⟨w, hw, rfl⟩ := key k w' hk
+      simp only [cur, Pi.zero_apply, add_zero]
+      exact htot
+    · intro k w' hk
+      obtain ⟨w, hw, rfl⟩ := key k w' hk
+      simp only [lst]
+      exact htot
+    · intro k w' hk
+      obtain ⟨w, hw, rfl⟩ := key k w' hk
+      have wf := h.wf k w hw
+      simp only [loc]
+      rw [view_vadd, ← h.hloc k w hw]
+      · congr 1
+        have : view w.deltaS w.deltaG = cur w - lst w := by
+          simp only [Walker.deltaS, Walker.deltaG, cur, lst]
+          exact view_vsub (wf.h1.trans wf.h3.symm) (wf.h2.trans wf.h4.symm)
+        rw [this, h.hcur k w hw, h.hlst k w hw]; abel
+      · simp [Walker.deltaS, vsubI, wf.h1, wf.h3, wf.h5]
+      · simp [Walker.deltaG, Shared.vsub, wf.h2, wf.h4, wf.h6]
+
+
+/-! ## histories -/
+
+theorem run_append (ws : List (Walker ℝ)) (a b : List (Ev ℝ)) : run ws (a ++ b) = run (run ws a) b := by
+  simp [run, List.foldl_append]
+
+theorem run_snoc (ws : List (Walker ℝ)) (a : List (Ev ℝ)) (e : Ev ℝ) : run ws (a ++ [e]) = apply (run ws a) e := by
+  simp [run, List.foldl_append]
+
+theorem samplesOf_append (w : Option Nat) (a b : List (Ev ℝ)) :
+    samplesOf w (a ++ b) = samplesOf w a ++ samplesOf w b := by
+  induction a with
+  | nil => simp [samplesOf]
+  | cons e a ih =>
+    cases e with
+    | sample v bin f =>
+      simp only [List.cons_append, samplesOf]
+      split <;> simp [ih]
+    | exchange => simpa [samplesOf] using ih
+    | restart v => simpa [samplesOf] using ih
+
+theorem samplesOf_bins (n nb : Nat) (w : Option Nat) (evs : List (Ev ℝ))
+    (hok : ∀ v b f, Ev.sample v b f ∈ evs → v < n ∧ b < nb) : ∀ bf ∈ samplesOf w evs, bf.1 < nb := by
+  induction evs with
+  | nil => simp [samplesOf]
+  | cons e evs ih =>
+    have ih' := ih (fun v b f h => hok v b f (by simp [h]))
+    cases e with
+    | sample v bin f =>
+      have := (hok v bin f (by simp)).2
+      simp only [samplesOf]
+      split
+      · intro bf hbf
+        rcases List.mem_cons.1 hbf with rfl | h
+        · exact this
+        · exact ih' bf h
+      · exact ih'
+    | exchange => simpa [samplesOf] using ih'
+    | restart v => simpa [samplesOf] using ih'
+
+/-- the samples of all walkers are the samples of each walker, each once -/
+theorem sum_own (n nb : Nat) (evs : List (Ev ℝ)) (hok : ∀ v b f, Ev.sample v b f ∈ evs → v < n ∧ b < nb) :
+    ∑ k ∈ Finset.range n, GS (samplesOf (some k) evs) = GS (samplesOf none evs) := by
+  induction evs with
+  | nil => simp [samplesOf, GS_nil]
+  | cons e evs ih =>
+    have ih' := ih (fun v b f h => hok v b f (by simp [h]))
+    cases e with
+    | sample v bin f =>
+      have hv := (hok v bin f (by simp)).1
+      have : ∀ k, GS (samplesOf (some k) (Ev.sample v bin f :: evs))
+          = (if k = v then sg (bin, f) else 0) + GS (samplesOf (some k) evs) := by
+        intro k
+        simp only [samplesOf]
+        by_cases hk : k = v
+        · simp [hk, GS_cons]
+        · simp [hk]
+      simp only [this, Finset.sum_add_distrib, ih']
+      simp [samplesOf, GS_cons, Finset.sum_ite_eq', hv]
+    | exchange => simpa [samplesOf] using ih'
+    | restart v => simpa [samplesOf] using ih'
+
+/-- the state after a history without restarts -/
+theorem main_inv (n nb : Nat) (evs : List (Ev ℝ)) (hok : ∀ v b f, Ev.sample v b f ∈ evs → v < n ∧ b < nb)
+    (hnr : ∀ v, Ev.restart v ∉ evs) :
+    ∃ (C : G) (P L : Nat → G), ShInv n nb (run (initAll n nb) evs) C P L ∧
+      (∀ k, L k + P k = GS (samplesOf (some k) evs)) ∧ C = ∑ k ∈ Finset.range n, L k := by
+  induction evs using List.reverseRecOn with
+  | nil => exact ⟨0, 0, 0, inv_init n nb, by simp [samplesOf, GS_nil], by simp⟩
+  | append_singleton evs e ih =>
+    obtain ⟨C, P, L, hinv, hown, hC⟩ := ih (fun v b f h => hok v b f (by simp [h])) (fun v h => hnr v (by simp [h]))
+    rw [run_snoc]
+    cases e with
+    | sample v bin f =>
+      have hb := (hok v bin f (by simp)).2
+      refine ⟨C, _, L, inv_sample hinv v bin f hb, ?_, hC⟩
+      intro k
+      rw [samplesOf_append, GS_append, ← hown k]
+      by_cases hk : k = v
+      · subst hk; simp [samplesOf, GS_cons, GS_nil, add_assoc]
+      · simp [samplesOf, GS_nil, hk]
+    | exchange =>
+      refine ⟨_, _, _, inv_exchange hinv, ?_, ?_⟩
+      · intro k
+        rw [samplesOf_append, GS_append, ← hown k]
+        simp [samplesOf, GS_nil]
+      · rw [hC, Finset.sum_add_distrib]
+    | restart v => exact absurd (by simp) (hnr v)
+
+/-- after samples only, the common grid and the local grids are unchanged and the pending grids grow by the own samples -/
+theorem samples_inv (n nb : Nat) (ws : List (Walker ℝ)) (C : G) (P L : Nat → G) (h : ShInv n nb ws C P L)
+    (evs : List (Ev ℝ)) (hok : ∀ v b f, Ev.sample v b f ∈ evs → v < n ∧ b < nb)
+    (hs : ∀ e ∈ evs, ∃ v b f, e = Ev.sample v b f) :
+    ShInv n nb (run ws evs) C (fun k => P k + GS (samplesOf (some k) evs)) L := by
+  induction evs using List.reverseRecOn with
+  | nil => simpa [run, samplesOf, GS_nil] using h
+  | append_singleton evs e ih =>
+    have ih' := ih (fun v b f h => hok v b f (by simp [h])) (fun e h => hs e (by simp [h]))
+    obtain ⟨v, bin, f, rfl⟩ := hs e (by simp)
+    have hb := (hok v bin f (by simp)).2
+    rw [run_snoc]
+    have := inv_sample ih' v bin f hb
+    convert this using 1
+    funext k
+    rw [samplesOf_append, GS_append]
+    by_cases hk : k = v
+    · subst hk; simp [samplesOf, GS_cons, GS_nil, add_assoc]
+    · simp [samplesOf, GS_nil, hk]
+
+/-! ## commuting samples, restarts at the boundary -/
+
+theorem modify_comm_I (s : List Int) (b b' : Nat) :
+    (s.modify b (· + 1)).modify b' (· + 1) = (s.modify b' (· + 1)).modify b (· + 1) := by
+  apply List.ext_getElem? ; intro i
+  simp only [List.getElem?_modify]
+  cases s[i]? with
+  | none => rfl
+  | some x => by_cases h1 : b = i <;> by_cases h2 : b' = i <;> simp [h1, h2]
+
+theorem modify_comm_R (s : List ℝ) (b b' : Nat) (f f' : ℝ) :
+    (s.modify b (· - f)).modify b' (· - f') = (s.modify b' (· - f')).modify b (· - f) := by
+  apply List.ext_getElem? ; intro i
+  simp only [List.getElem?_modify]
+  cases s[i]? with
+  | none => rfl
+  | some x => by_cases h1 : b = i <;> by_cases h2 : b' = i <;> simp [h1, h2] ; ring
+
+theorem sample_comm (w : Walker ℝ) (b b' : Nat) (f f' : ℝ) :
+    (w.sample b f).sample b' f' = (w.sample b' f').sample b f := by
+  simp only [Walker.sample]
+  rw [modify_comm_I, modify_comm_R]
+
+theorem apply_sample_comm (ws : List (Walker ℝ)) (v b : Nat) (f : ℝ) (v' b' : Nat) (f' : ℝ) :
+    apply (apply ws (.sample v b f)) (.sample v' b' f') = apply (apply ws (.sample v' b' f')) (.sample v b f) := by
+  simp only [apply]
+  apply List.ext_getElem? ; intro i
+  simp only [List.getElem?_modify]
+  cases ws[i]? with
+  | none => rfl
+  | some x => by_cases h1 : v = i <;> by_cases h2 : v' = i <;> simp [h1, h2, sample_comm]
+
+theorem run_perm (ws : List (Walker ℝ)) (evs evs' : List (Ev ℝ)) (hp : evs.Perm evs')
+    (hs : ∀ e ∈ evs, ∃ v b f, e = Ev.sample v b f) : run ws evs = run ws evs' := by
+  unfold run
+  apply hp.foldl_eq'
+  intro x hx y hy z
+  obtain ⟨v, b, f, rfl⟩ := hs x hx
+  obtain ⟨v', b', f', rfl⟩ := hs y hy
+  exact apply_sample_comm z v b f v' b' f'
+
+theorem exchange_restart (ws : List (Walker ℝ)) (k : Nat) : apply (exchange ws) (.restart k) = exchange ws := by
+  cases ws with
+  | nil => simp [exchange, apply]
+  | cons w0 rest =>
+    simp only [apply, exchange]
+    apply List.ext_getElem? ; intro i
+    simp only [List.getElem?_modify, List.getElem?_map]
+    cases (w0 :: rest)[i]? with
+    | none => rfl
+    | some x => by_cases h1 : k = i <;> simp [h1, Walker.restart]
+
+/-! ## mirrors -/
+
+theorem read_inv {H : Type} (m : Mirror H) (f f' : List H) (c : Nat)
+    (hh : m.hills = f.take m.pos) (hp : m.pos ≤ f.length) (hpre : f <+: f') :
+    (m.read f' c).hills = f'.take (m.read f' c).pos ∧ (m.read f' c).pos ≤ f'.length := by
+  obtain ⟨t, rfl⟩ := hpre
+  unfold Mirror.read
+  simp only
+  split
+  · refine ⟨?_, ?_⟩
+    · rw [hh, List.take_append_of_le_length hp]
+    · simp; omega
+  · rename_i hlt
+    simp only
+    refine ⟨?_, by omega⟩
+    have hle : m.pos ≤ min c (f ++ t).length := by omega
+    rw [hh]
+    conv_rhs => rw [← Nat.add_sub_cancel' hle, List.take_add]
+    rw [List.take_append_of_le_length hp]
+
+theorem read_pos_ge {H : Type} (m : Mirror H) (f : List H) (c : Nat) :
+    min c f.length ≤ (m.read f c).pos := by
+  unfold Mirror.read
+  simp only
+  split
+  · simp; omega
+  · simp
+
+theorem read_partial {H : Type} (m : Mirror H) (file : List H) (complete : Nat) :
+    (m.read file complete).pos ≤ max m.pos (min complete file.length) ∧
+    (m.read file complete).hills.length = m.hills.length + ((m.read file complete).pos - m.pos) := by
+  unfold Mirror.read
+  simp only
+  split
+  · simp
+  · simp; omega
+
+end Cv.C14L
